@@ -8,6 +8,7 @@ CONSTANTS
   Filter = FALSE
   ValueEq = TRUE
   SoloTries = 0
+  SplitPC = FALSE
 INIT RInit
 NEXT RNext
 INVARIANTS OneWinnerPerVersion
